@@ -72,8 +72,11 @@ def run_case(case, ctx):
         r = ctx.rng("C14p", case["salt"])
         p = vlog.fast_program(r)
         p["inputs"] = [n for n in p["inputs"]]
-        reserved = {"tie0", "tie1", "tie_0", "tie_1", "tie_x"}
-        if reserved & (set(p["inputs"]) | set(p["outputs"]) | set(p["wires"])):
+        # a net called tie0 / tie1 that is not a primary input is merged with the fast parser's constants before
+        # its collision guard can see it (the guard only looks at the inputs): the fast parser's documentation does not
+        # promise more, and the property speaks of "the name of the shared constant nodes": only inputs may carry them
+        reserved = {"tie0", "tie1"}
+        if reserved & ((set(p["outputs"]) | set(p["wires"])) - set(p["inputs"])):
             return []
         text = vlog.fast_subset_text(p, r)
         bbs = [cg.BlackBox(t["type"], t["ins"], t["outs"]) for t in p["bbtypes"]]
